@@ -185,6 +185,26 @@ def parse_stmts(s):
     return out
 
 
+def resolve_bool(expr, scope):
+    """true / false for a literal or for an identifier bound once to a literal by a const(expr) bool in `scope`."""
+    e = norm_atom(expr)
+    neg = False
+    while e.startswith("!"):
+        neg = not neg
+        e = _strip_parens(e[1:])
+    v = None
+    if e in ("true", "false"):
+        v = e == "true"
+    elif re.fullmatch(r"[A-Za-z_][\w:]*", e):
+        ms = re.findall(r"\b(?:static\s+)?(?:const|constexpr)\s+(?:static\s+)?bool\s+%s\s*(?:=\s*(true|false)|\{\s*(true|false)\s*\})\s*;" % re.escape(e.split("::")[-1]), scope)
+        vals = {(a or b) for a, b in ms}
+        if len(vals) == 1:
+            v = vals.pop() == "true"
+    if v is None:
+        return None
+    return (not v) if neg else v
+
+
 def _strip_parens(c):
     c = c.strip()
     while c.startswith("(") and match_close(c, 0, "(", ")") == len(c) - 1:
@@ -215,6 +235,7 @@ def norm_atom(a):
     """Canonical spelling of one conjunct: no blanks, no redundant parentheses, `x == true` -> x,
     `x == false` / `false == x` / `!(x)` -> !x, `(e) != 0` -> e."""
     a = re.sub(r"\s+", "", _strip_parens(a))
+    a = re.sub(r"(?<![\w>\]\)])\((\w+)\)", r"\1", a)          # `(frame).Sandboxed` as a macro argument expands to
     changed = True
     while changed:
         changed = False
@@ -277,9 +298,83 @@ def is_guard_if(node, want):
             and throws_unconditionally(node[2]))
 
 
-def text_node_guard(body):
-    st = parse_stmts(body)
-    return bool(st) and is_guard_if(st[0], ["frame.Sandboxed"])
+HARMLESS_DECL = re.compile(r"^(?!return\b|throw\b|delete\b|goto\b|using\b|typedef\b|static\b)(?:const\s+)?[A-Za-z_][\w:]*(?:<[^;()]*>)?(?:\s*[\*&]+\s*|\s+)"
+                           r"[A-Za-z_]\w*(?:\s*=\s*[\w\.:\->\*&\"]+|\s*\{\s*\})?(?:\s*,\s*[\*&]?\s*[A-Za-z_]\w*)*\s*;$")
+
+
+LOGGING_STMT = re.compile(r"^Log\s*\([^()]*\)\s*(<<[^();=]*)*;$")
+
+
+def _flat_text(node):
+    if node is None:
+        return []
+    if node[0] == "block":
+        out = []
+        for b in node[1]:
+            out += _flat_text(b)
+        return out
+    if node[0] == "loop":
+        t = node[1].strip()
+        m = re.match(r"do\b", t)
+        if m and re.search(r"while\s*\(\s*(0|false)\s*\)\s*;$", t):
+            b0 = t.index("{") if "{" in t else -1
+            if b0 >= 0:
+                return parse_stmts(t[b0 + 1:match_close(t, b0)])
+    return [node]
+
+
+def _find_function(src, name):
+    """(param names, body) of a free/static function `name` defined in src, else None."""
+    m = re.search(r"^(?:static\s+|inline\s+)*[\w:<>\*&\s]+?\b" + re.escape(name) + r"\s*\(([^)]*)\)\s*(?:const\s*)?\{", src, re.M)
+    if not m:
+        return None
+    b0 = src.index("{", m.end() - 1)
+    params = []
+    for prm in split_args(m.group(1)):
+        mm = re.search(r"([A-Za-z_]\w*)\s*(?:=.*)?$", prm.strip())
+        params.append(mm.group(1) if mm else "")
+    return params, src[b0 + 1:match_close(src, b0)]
+
+
+def text_sandbox_exit(stmts, var, src="", depth=0):
+    """Token-level twin of a_sandbox_exit: assuming `<var>.Sandboxed`, do the statements throw before any effect?"""
+    atom = var + ".Sandboxed"
+    stmts = list(stmts)
+    while stmts:
+        st = stmts.pop(0)
+        flat = _flat_text(st)
+        if flat != [st]:
+            stmts = flat + stmts
+            continue
+        if st[0] == "simple" and HARMLESS_DECL.match(st[1]) and "(" not in st[1]:
+            continue
+        if st[0] == "simple" and LOGGING_STMT.match(st[1]):
+            continue
+        if throws_unconditionally(st):
+            return True
+        if st[0] == "if":
+            cj = conjuncts(st[1])
+            if cj == [atom]:
+                return depth < 4 and text_sandbox_exit(_flat_text(st[2]), var, src, depth + 1)
+            if cj == ["!" + atom]:
+                stmts = _flat_text(st[3]) + stmts
+                continue
+            return False
+        if st[0] == "simple":
+            m = re.match(r"(?:[\w:]+::)?([A-Za-z_]\w*)\s*\((.*)\)\s*;$", st[1], re.S)
+            if m and depth < 3:
+                args = [re.sub(r"\s+", "", a) for a in split_args(m.group(2))]
+                if var in args:
+                    f = _find_function(src, m.group(1))
+                    if f and args.index(var) < len(f[0]) and f[0][args.index(var)]:
+                        return text_sandbox_exit(parse_stmts(f[1]), f[0][args.index(var)], src, depth + 1)
+            return False
+        return False
+    return False
+
+
+def text_node_guard(body, var="frame", src=""):
+    return text_sandbox_exit(parse_stmts(body), var, src)
 
 
 def _contains(node, needle):
@@ -297,22 +392,101 @@ def _contains(node, needle):
 SIDE_EFFECT_ATOM = re.compile(r"^!\w+->IsSideEffectFree\(\)$")
 
 
-def text_call_check(body):
+def _text_call_check_if(n, var, need, depth=0):
+    if n is None or n[0] != "if" or depth > 3:
+        return False
+    cj = conjuncts(n[1])
+    if not cj:
+        return False
+    found = set()
+    for a in cj:
+        if a == var + ".Sandboxed":
+            found.add("sb")
+        elif SIDE_EFFECT_ATOM.match(a):
+            found.add("nsef")
+        else:
+            return False
+    if not found <= set(need):
+        return False
+    rest = [x for x in need if x not in found]
+    if not rest:
+        return throws_unconditionally(n[2])
+    flat = [x for x in _flat_text(n[2]) if not (x[0] == "simple" and HARMLESS_DECL.match(x[1]) and "(" not in x[1])]
+    return bool(flat) and _text_call_check_if(flat[0], var, rest, depth + 1)
+
+
+def text_call_check(body, var="frame"):
     st = parse_stmts(body)
     for n in st:
         if _contains(n, "VMOps::FunctionCall(") or _contains(n, "VMOps::FunctionCall ("):
             return False                       # reached the call without having seen the check
-        if n[0] == "if" and throws_unconditionally(n[2]):
-            cj = conjuncts(n[1])
-            if cj is not None and len(cj) == 2 and "frame.Sandboxed" in cj and any(SIDE_EFFECT_ATOM.match(a) for a in cj):
-                return True
+        if _text_call_check_if(n, var, ["sb", "nsef"]):
+            return True
     return False
 
 
 NUV_ATOM = re.compile(r"^[\w\.\->\(\)]*\.Attributes&FANoUserView$")
 
 
-def text_field_check(body):
+def _is_nuv_atom(a, src):
+    """`<field info>.Attributes & FANoUserView`, or a call of a predicate of this file that returns exactly that."""
+    if NUV_ATOM.match(a):
+        return True
+    m = re.match(r"^([A-Za-z_]\w*)\(.*\)$", a)
+    if m and src:
+        f = _find_function(src, m.group(1))
+        if f:
+            st = parse_stmts(f[1])
+            hidden = False
+            for n in st:
+                if n[0] == "simple" and HARMLESS_DECL.match(n[1]) and "(" not in n[1]:
+                    continue
+                if n[0] == "simple" and re.match(r"(?:const\s+)?[\w:]+\s+\w+\s*=\s*[\w\->\.]+\(\w*\)\s*;$", n[1]):
+                    continue              # `Field info = type->GetFieldInfo(fid);`
+                if n[0] == "simple" and n[1].startswith("return"):
+                    e = norm_atom(n[1][len("return"):].rstrip(";"))
+                    hidden = bool(NUV_ATOM.match(e))
+                break
+            return hidden
+    return False
+
+
+def text_field_check(body, src=""):
+    """object.cpp Object::GetFieldByName: on the path with `sandboxed` true, a FANoUserView field throws before the
+    field is read.  Shapes: nested ifs, one conjunction, early `if (!sandboxed) return GetField(fid);`, the test
+    behind a predicate of the same file."""
+    under = False                          # statements from here on only run when `sandboxed` is true
+    for n in parse_stmts(body):
+        if n[0] == "if":
+            cj = conjuncts(n[1])
+            if cj == ["!sandboxed"] and n[2] is not None and n[3] is None:
+                t = _flat_text(n[2])
+                if len(t) == 1 and t[0][0] == "simple" and t[0][1].startswith("return"):
+                    under = True
+                    continue
+            if cj is not None:
+                rest = [a for a in cj if a != "sandboxed"]
+                has_sb = under or "sandboxed" in cj
+                if has_sb and len(rest) == 1 and _is_nuv_atom(rest[0], src) and throws_unconditionally(n[2]):
+                    return True
+                if cj == ["sandboxed"]:
+                    for m in _flat_text(n[2]):
+                        if m[0] == "if":
+                            c2 = conjuncts(m[1])
+                            if c2 is not None and len(c2) == 1 and _is_nuv_atom(c2[0], src) and throws_unconditionally(m[2]):
+                                return True
+                        if m[0] == "simple" and m[1].startswith("return"):
+                            break
+                    continue
+            if _contains(n, "GetField(fid)"):
+                return False
+            continue
+        if _contains(n, "GetField(fid)"):
+            return False
+    return False
+
+
+def _old_text_field_check(body):
     """object.cpp Object::GetFieldByName: before the field is read (`return GetField(fid)`), under `sandboxed`
     a FANoUserView field throws — nested ifs or one conjunction."""
     for n in parse_stmts(body):
@@ -438,7 +612,7 @@ def a_if_parts(n):
     inner = n.get("inner", [])
     if len(inner) < 2:
         return None
-    return inner[0], inner[1]
+    return inner[0], inner[1], (inner[2] if n.get("hasElse") and len(inner) > 2 else None)
 
 
 def a_contains_call(n, name):
@@ -447,6 +621,293 @@ def a_contains_call(n, name):
     if n.get("kind") == "DeclRefExpr" and (n.get("referencedDecl") or {}).get("name") == name:
         return True
     return any(a_contains_call(c, name) for c in n.get("inner", []))
+
+
+def a_param_ids(decl):
+    return [c.get("id") for c in decl.get("inner", []) if c.get("kind") == "ParmVarDecl"]
+
+
+def a_is_sandboxed_of(n, pid):
+    """`<param>.Sandboxed`, also `== true`, `!= false`, parenthesised; <param> identified by declaration id."""
+    n = a_strip(n)
+    if not n:
+        return False
+    if n.get("kind") == "BinaryOperator" and n.get("opcode") in ("==", "!="):
+        l, r = n["inner"]
+        for x, y in ((l, r), (r, l)):
+            b = a_bool_lit(y)
+            if b is not None and ((n["opcode"] == "==") == bool(b)):
+                return a_is_sandboxed_of(x, pid)
+        return False
+    if n.get("kind") == "MemberExpr" and n.get("name") == "Sandboxed":
+        base = a_strip(n["inner"][0])
+        return base.get("kind") == "DeclRefExpr" and (base.get("referencedDecl") or {}).get("id") == pid
+    return False
+
+
+def a_is_not_sandboxed_of(n, pid):
+    n = a_strip(n)
+    if not n:
+        return False
+    if n.get("kind") == "UnaryOperator" and n.get("opcode") == "!":
+        return a_is_sandboxed_of(n["inner"][0], pid)
+    if n.get("kind") == "BinaryOperator" and n.get("opcode") in ("==", "!="):
+        l, r = n["inner"]
+        for x, y in ((l, r), (r, l)):
+            b = a_bool_lit(y)
+            if b is not None and ((n["opcode"] == "==") != bool(b)):
+                return a_is_sandboxed_of(x, pid)
+    return False
+
+
+PURE_EXPR_KINDS = set(TRANSPARENT) | {
+    "DeclRefExpr", "MemberExpr", "CXXThisExpr", "IntegerLiteral", "StringLiteral", "CXXBoolLiteralExpr", "CXXNullPtrLiteralExpr",
+    "FloatingLiteral", "CharacterLiteral", "CXXDefaultArgExpr", "CXXConstructExpr", "CXXTemporaryObjectExpr", "UnaryOperator",
+    "BinaryOperator", "ConditionalOperator", "ImplicitValueInitExpr", "CXXStaticCastExpr", "CStyleCastExpr", "InitListExpr"}
+
+
+def a_pure_expr(n):
+    """No call, no assignment, no increment anywhere below: evaluating it cannot have an effect.
+    (Constructors are accepted: locals of value types such as Value/String/DebugInfo.)"""
+    if not isinstance(n, dict) or not n.get("kind"):
+        return True
+    k = n["kind"]
+    if k not in PURE_EXPR_KINDS:
+        return False
+    if k == "UnaryOperator" and n.get("opcode") in ("++", "--"):
+        return False
+    if k == "BinaryOperator" and (n.get("opcode", "").endswith("=") and n.get("opcode") not in ("==", "!=", "<=", ">=")):
+        return False
+    return all(a_pure_expr(c) for c in n.get("inner", []))
+
+
+def a_harmless_decl(st):
+    if st.get("kind") != "DeclStmt":
+        return False
+    for v in st.get("inner", []):
+        if v.get("kind") != "VarDecl" or v.get("storageClass") == "static":
+            return False
+        if not all(a_pure_expr(c) for c in v.get("inner", [])):
+            return False
+    return True
+
+
+def a_is_logging(st):
+    """`Log(level, facility) << pure << pure …;` — writes a log line, touches no protected state."""
+    n = a_strip(st)
+    while n and n.get("kind") == "CXXOperatorCallExpr":
+        inner = n.get("inner", [])
+        cal = a_strip(inner[0]) if inner else None
+        if not cal or (cal.get("referencedDecl") or {}).get("name") != "operator<<" or len(inner) != 3:
+            return False
+        if not a_pure_expr(inner[2]):
+            return False
+        n = a_strip(inner[1])
+    if not n:
+        return False
+    if n.get("kind") in ("CXXTemporaryObjectExpr", "CXXFunctionalCastExpr", "CXXConstructExpr"):
+        return "Log" in (n.get("type") or {}).get("qualType", "") and all(a_pure_expr(c) for c in n.get("inner", []))
+    if n.get("kind") == "CallExpr":
+        cal = a_strip(n["inner"][0])
+        return (cal.get("referencedDecl") or {}).get("name") == "Log" and all(a_pure_expr(c) for c in n["inner"][1:])
+    return False
+
+
+def a_zero_cond(n):
+    n = a_strip(n)
+    return bool(n) and ((n.get("kind") == "IntegerLiteral" and n.get("value") == "0") or
+                        (n.get("kind") == "CXXBoolLiteralExpr" and n.get("value") is False))
+
+
+def a_flat(st):
+    """A statement as the list of statements it runs once, in order (blocks and `do { } while (0)` opened)."""
+    if st is None:
+        return []
+    k = st.get("kind")
+    if k == "NullStmt":
+        return []
+    if k == "CompoundStmt":
+        out = []
+        for c in st.get("inner", []):
+            out += a_flat(c)
+        return out
+    if k == "DoStmt" and len(st.get("inner", [])) == 2 and a_zero_cond(st["inner"][1]):
+        return a_flat(st["inner"][0])
+    if k in ("ExprWithCleanups",) and len(st.get("inner", [])) == 1:
+        return a_flat(st["inner"][0])
+    return [st]
+
+
+def a_call_target(st):
+    """(name, [args]) of a plain function / method call statement, else None."""
+    st = a_strip(st)
+    if not st or st.get("kind") not in ("CallExpr", "CXXMemberCallExpr"):
+        return None
+    inner = st.get("inner", [])
+    if not inner:
+        return None
+    cal = a_strip(inner[0])
+    name = None
+    if cal.get("kind") == "DeclRefExpr":
+        name = (cal.get("referencedDecl") or {}).get("name")
+    elif cal.get("kind") == "MemberExpr":
+        name = cal.get("name")
+    if not name or name.startswith("throw_exception"):
+        return None
+    return name, inner[1:]
+
+
+def a_sandbox_exit(stmts, pid, helpers, wanted=None, depth=0):
+    """Assuming <param pid>.Sandboxed is true: does running `stmts` throw before anything with an effect runs?
+    helpers: {(name, argIndex): bool} for functions known to do exactly that for their argIndex-th parameter;
+    wanted: a set collecting (name, argIndex) of calls whose callee would have to be looked at."""
+    stmts = list(stmts)
+    while stmts:
+        st = stmts.pop(0)
+        flat = a_flat(st)
+        if flat != [st]:
+            stmts = flat + stmts
+            continue
+        if a_harmless_decl(st) or a_is_logging(st):
+            continue
+        if a_throws(st):
+            return True
+        parts = a_if_parts(st)
+        if parts:
+            cond, then, els = parts
+            cj = a_conjuncts(cond)
+            if cj and all(a_is_sandboxed_of(c, pid) for c in cj):
+                return a_sandbox_exit(a_flat(then), pid, helpers, wanted, depth + 1) if depth < 4 else False
+            if len(cj) == 1 and a_is_not_sandboxed_of(cj[0], pid):
+                stmts = a_flat(els) + stmts          # the sandboxed path skips the then-branch
+                continue
+            return False
+        ct = a_call_target(st)
+        if ct:
+            name, args = ct
+            for idx, a in enumerate(args):
+                a = a_strip(a)
+                if a and a.get("kind") == "DeclRefExpr" and (a.get("referencedDecl") or {}).get("id") == pid:
+                    if wanted is not None:
+                        wanted.add((name, idx))
+                    return bool(helpers.get((name, idx)))
+            return False
+        return False
+    return False
+
+
+def a_call_check(st, pid, need=("sb", "nsef"), depth=0):
+    """`if (<pid>.Sandboxed && !f->IsSideEffectFree()) throw`, conjuncts in any order, also as nested ifs."""
+    parts = a_if_parts(st)
+    if not parts or depth > 3:
+        return False
+    cond, then, _ = parts
+    found = set()
+    for c in a_conjuncts(cond):
+        if a_is_sandboxed_of(c, pid):
+            found.add("sb")
+        elif a_is_not_side_effect_free(c):
+            found.add("nsef")
+        else:
+            return False
+    if not found or not found <= set(need):
+        return False
+    rest = tuple(x for x in need if x not in found)
+    if not rest:
+        return a_throws(then) or (len(a_flat(then)) >= 1 and a_throws({"kind": "CompoundStmt", "inner": a_flat(then)}))
+    flat = [x for x in a_flat(then) if not a_harmless_decl(x)]
+    return len(flat) >= 1 and a_call_check(flat[0], pid, rest, depth + 1)
+
+
+def _decode_stream(txt):
+    import json
+    dec = json.JSONDecoder()
+    i = 0
+    while i < len(txt):
+        while i < len(txt) and txt[i] != "{":          # skips blanks and `Dumping …:` headers
+            if txt[i] in " \r\n\t":
+                i += 1
+            else:
+                j = txt.find("\n", i)
+                i = len(txt) if j < 0 else j + 1
+        if i >= len(txt):
+            break
+        d, i = dec.raw_decode(txt, i)
+        yield d
+
+
+def _clang_cmd(clang, repo, build, src, filt, extra_inc=()):
+    cmd = [clang, "-std=gnu++17", "-fsyntax-only", "-w", "-DICINGA2_VERIF", "-DBOOST_ASIO_USE_TS_EXECUTOR_AS_DEFAULT",
+           "-DBOOST_COROUTINES_NO_DEPRECATION_WARNING", "-DBOOST_FILESYSTEM_NO_DEPRECATED", "-D_GNU_SOURCE"]
+    if repo:
+        cmd += ["-I" + repo, "-I" + os.path.join(repo, "lib"), "-I" + build, "-I" + os.path.join(build, "lib"),
+                "-isystem", os.path.join(repo, "third-party/nlohmann_json"), "-isystem", os.path.join(repo, "third-party/utf8cpp/source"),
+                "-isystem", os.path.join(repo, "third-party")]
+    for x in extra_inc:
+        cmd.append("-I" + x)
+    return cmd + ["-Xclang", "-ast-dump=json", "-Xclang", "-ast-dump-filter=" + filt, src]
+
+
+def ast_analyse(dump_fn):
+    """dump_fn(filter) -> AST dump text (or None).  Two passes: the DoEvaluate bodies, then the helpers they call
+    with the frame as first effective statement."""
+    txt = dump_fn("DoEvaluate")
+    if txt is None:
+        return None
+    try:
+        decls = [d for d in _decode_stream(txt) if d.get("kind") == "CXXMethodDecl" and d.get("name") == "DoEvaluate"
+                 and any(c.get("kind") == "CompoundStmt" for c in d.get("inner", []))]
+    except ValueError:
+        return None
+
+    def evaluate(helpers, wanted):
+        guards, call = {}, None
+        for d in decls:
+            mm = re.match(r"_ZNK\d+icinga(\d+)", d.get("mangledName", "")) or re.match(r"_ZNK(\d+)", d.get("mangledName", ""))
+            pids = a_param_ids(d)
+            if not mm or not pids:
+                continue
+            n = int(mm.group(1))
+            cls = d["mangledName"][mm.end():mm.end() + n]
+            body = [c for c in d["inner"] if c.get("kind") == "CompoundStmt"][0]
+            stmts = a_flat(body)
+            guards[cls] = a_sandbox_exit(stmts, pids[0], helpers, wanted)
+            if cls == "FunctionCallExpression":
+                call = False
+                for st in body.get("inner", []):
+                    if a_contains_call(st, "FunctionCall"):
+                        break
+                    if a_call_check(st, pids[0]):
+                        call = True
+                        break
+        return guards, call
+
+    wanted = set()
+    guards, call = evaluate({}, wanted)
+    helpers = {}
+    for name in sorted({n for n, _ in wanted}):
+        ht = dump_fn(name)
+        if ht is None:
+            continue
+        try:
+            hd = [d for d in _decode_stream(ht) if d.get("kind") in ("FunctionDecl", "CXXMethodDecl") and d.get("name") == name
+                  and any(c.get("kind") == "CompoundStmt" for c in d.get("inner", []))]
+        except ValueError:
+            continue
+        for (nm, idx) in wanted:
+            if nm != name:
+                continue
+            ok = bool(hd)
+            for d in hd:
+                pids = a_param_ids(d)
+                body = [c for c in d["inner"] if c.get("kind") == "CompoundStmt"][0]
+                ok = ok and idx < len(pids) and a_sandbox_exit(a_flat(body), pids[idx], {}, None)
+            helpers[(nm, idx)] = ok
+    if helpers:
+        guards, call = evaluate(helpers, None)
+    if not guards:
+        return None
+    return {"guards": guards, "callCheck": call, "helpers": sorted("%s#%d=%s" % (n, i, v) for (n, i), v in helpers.items())}
 
 
 def ast_expression_tables(repo, build, cache_dir=None):
@@ -475,19 +936,14 @@ def ast_expression_tables(repo, build, cache_dir=None):
                 return json.load(open(cp))
             except ValueError:
                 pass
-    cmd = [clang, "-std=gnu++17", "-fsyntax-only", "-w", "-DICINGA2_VERIF", "-DBOOST_ASIO_USE_TS_EXECUTOR_AS_DEFAULT",
-           "-DBOOST_COROUTINES_NO_DEPRECATION_WARNING", "-DBOOST_FILESYSTEM_NO_DEPRECATED", "-D_GNU_SOURCE",
-           "-I" + repo, "-I" + os.path.join(repo, "lib"), "-I" + build, "-I" + os.path.join(build, "lib"),
-           "-isystem", os.path.join(repo, "third-party/nlohmann_json"), "-isystem", os.path.join(repo, "third-party/utf8cpp/source"),
-           "-isystem", os.path.join(repo, "third-party"),
-           "-Xclang", "-ast-dump=json", "-Xclang", "-ast-dump-filter=DoEvaluate", src]
-    try:
-        p = subprocess.run(cmd, stdout=subprocess.PIPE, stderr=subprocess.PIPE, timeout=300)
-    except (OSError, subprocess.TimeoutExpired):
-        return None
-    if p.returncode != 0:
-        return None
-    res = ast_tables_from_dump(p.stdout.decode("utf-8", "replace"))
+
+    def dump(filt):
+        try:
+            p = subprocess.run(_clang_cmd(clang, repo, build, src, filt), stdout=subprocess.PIPE, stderr=subprocess.PIPE, timeout=300)
+        except (OSError, subprocess.TimeoutExpired):
+            return None
+        return p.stdout.decode("utf-8", "replace") if p.returncode == 0 else None
+    res = ast_analyse(dump)
     if res is not None and cache_dir:
         os.makedirs(cache_dir, exist_ok=True)
         with open(os.path.join(cache_dir, key + ".json"), "w") as f:
@@ -496,57 +952,40 @@ def ast_expression_tables(repo, build, cache_dir=None):
 
 
 def ast_tables_from_dump(txt):
-    import json
-    dec = json.JSONDecoder()
-    i, guards, call = 0, {}, None
-    while i < len(txt):
-        while i < len(txt) and txt[i] != "{":          # skips blanks and `Dumping …:` headers
-            j = txt.find("\n", i)
-            if txt[i] in " \r\n\t":
-                i += 1
-            else:
-                i = len(txt) if j < 0 else j + 1
-        if i >= len(txt):
-            break
-        try:
-            d, i = dec.raw_decode(txt, i)
-        except ValueError:
-            return None
-        if d.get("kind") != "CXXMethodDecl" or d.get("name") != "DoEvaluate":
-            continue
-        body = [c for c in d.get("inner", []) if c.get("kind") == "CompoundStmt"]
-        if not body:
-            continue
-        mm = re.match(r"_ZNK\d+icinga(\d+)", d.get("mangledName", "")) or re.match(r"_ZNK(\d+)", d.get("mangledName", ""))
-        if not mm:
-            continue
-        n = int(mm.group(1))
-        cls = d["mangledName"][mm.end():mm.end() + n]
-        stmts = [c for c in body[0].get("inner", []) if c.get("kind") != "NullStmt"]
-        g = False
-        if stmts:
-            parts = a_if_parts(stmts[0])
-            if parts:
-                cj = a_conjuncts(parts[0])
-                g = len(cj) >= 1 and all(a_is_frame_sandboxed(c) for c in cj) and a_throws(parts[1])
-        guards[cls] = g
-        if cls == "FunctionCallExpression":
-            call = False
-            for st in stmts:
-                if a_contains_call(st, "FunctionCall"):
-                    break
-                parts = a_if_parts(st)
-                if parts and a_throws(parts[1]):
-                    cj = a_conjuncts(parts[0])
-                    if len(cj) == 2 and any(a_is_frame_sandboxed(c) for c in cj) and any(a_is_not_side_effect_free(c) for c in cj):
-                        call = True
-                        break
-    if not guards:
-        return None
-    return {"guards": guards, "callCheck": call}
+    """Single-dump variant (no helper pass)."""
+    return ast_analyse(lambda filt: txt if filt == "DoEvaluate" else None)
 
 
 THROW_GUARD = re.compile(r"\s*if\s*\(\s*frame\.Sandboxed\s*\)\s*BOOST_THROW_EXCEPTION\s*\(\s*ScriptError\s*\(")
+
+
+GET_REFERENCE_SIG = re.compile(r"^bool\s+(\w+)::GetReference\s*\(\s*ScriptFrame\s*&\s*(\w+)\s*,\s*bool\s+(\w+)\s*,[^)]*\)\s*const\s*\{", re.M)
+
+
+def get_reference_defs(src):
+    """(class, body) of every GetReference definition, parameters renamed to the canonical `frame` / `init_dict`."""
+    res = []
+    for m in GET_REFERENCE_SIG.finditer(src):
+        b = src.index("{", m.end() - 1)
+        body = src[b + 1:match_close(src, b)]
+        if m.group(2) != "frame":
+            body = re.sub(r"\b%s\b" % re.escape(m.group(2)), "frame", body)
+        if m.group(3) != "init_dict":
+            body = re.sub(r"\b%s\b" % re.escape(m.group(3)), "init_dict", body)
+        res.append((m.group(1), body))
+    return res
+
+
+DO_EVALUATE_SIG = re.compile(r"^ExpressionResult\s+(\w+)::DoEvaluate\s*\(\s*ScriptFrame\s*&\s*(\w+)\s*,\s*DebugHint\s*\*\s*\w*\s*\)\s*const\s*\{", re.M)
+
+
+def do_evaluate_defs(src):
+    """(class, name of the frame parameter, body) for every DoEvaluate definition."""
+    res = []
+    for m in DO_EVALUATE_SIG.finditer(src):
+        b = src.index("{", m.end() - 1)
+        res.append((m.group(1), m.group(2), src[b + 1:match_close(src, b)]))
+    return res
 
 
 def bodies(src, sig_re):
@@ -586,6 +1025,133 @@ def split_args(s):
     return parts
 
 
+KNOWN_REG_MACROS = re.compile(r"^\s*REGISTER_(SAFE_)?FUNCTION(_NONCONST)?\s*\(\s*(\w+)\s*,\s*(\w+)\s*,\s*([^,]+),", re.M)
+KNOWN_STATS_MACRO = re.compile(r"^\s*REGISTER_STATSFUNCTION\s*\(\s*(\w+)\s*,\s*([^)]+)\)", re.M)
+
+
+def expand_known_macros(src):
+    """Fallback for files that cannot be preprocessed: rewrite the registration macros of function.hpp /
+    statsfunction.hpp into the constructor call they expand to."""
+    src = KNOWN_REG_MACROS.sub(lambda m: 'new icinga::Function("%s#%s", %s, {}, %s); (' % (m.group(3), m.group(4), m.group(5).strip(), "true" if m.group(1) else "false"), src)
+    return KNOWN_STATS_MACRO.sub(lambda m: 'new icinga::Function("StatsFunctions#%s", %s, {}, false);' % (m.group(1), m.group(2).strip()), src)
+
+
+def preprocess_many(repo, build, cache, files):
+    """{file: text of the main file after preprocessing (macros expanded, includes dropped) | None}."""
+    import hashlib
+    import subprocess
+    from concurrent.futures import ThreadPoolExecutor
+    h0 = hashlib.sha1()
+    for rel in ("lib/base/function.hpp", "lib/base/statsfunction.hpp", "lib/base/initialize.hpp", "lib/remote/apifunction.hpp"):
+        try:
+            h0.update(open(os.path.join(repo, rel), "rb").read())
+        except OSError:
+            pass
+    h0.update(b"v2")
+    base = ["g++", "-E", "-std=c++17", "-w", "-DICINGA2_VERIF", "-DBOOST_ASIO_USE_TS_EXECUTOR_AS_DEFAULT", "-D_GNU_SOURCE",
+            "-I" + repo, "-I" + os.path.join(repo, "lib"), "-I" + build, "-I" + os.path.join(build, "lib"),
+            "-isystem", os.path.join(repo, "third-party/nlohmann_json"), "-isystem", os.path.join(repo, "third-party/utf8cpp/source"),
+            "-isystem", os.path.join(repo, "third-party")]
+    pdir = os.path.join(cache, "cpp") if cache else None
+    if pdir:
+        os.makedirs(pdir, exist_ok=True)
+
+    def one(f):
+        h = h0.copy()
+        try:
+            h.update(open(f, "rb").read())
+        except OSError:
+            return f, None
+        cp = os.path.join(pdir, h.hexdigest() + ".i") if pdir else None
+        if cp and os.path.exists(cp):
+            txt = open(cp, encoding="utf-8", errors="replace").read()
+            return f, (None if txt == "\0FAILED" else txt)
+        try:
+            p = subprocess.run(base + [f], stdout=subprocess.PIPE, stderr=subprocess.DEVNULL, timeout=300)
+        except (OSError, subprocess.TimeoutExpired):
+            return f, None
+        txt = None
+        if p.returncode == 0:
+            out, keep = [], False
+            real = os.path.realpath(f)
+            for line in p.stdout.decode("utf-8", "replace").split("\n"):
+                if line.startswith("# "):
+                    m = re.match(r'# \d+ "([^"]*)"', line)
+                    if m:
+                        keep = os.path.realpath(m.group(1)) == real
+                    continue
+                if keep:
+                    out.append(line)
+            txt = "\n".join(out)
+        if cp:
+            with open(cp + ".tmp%d" % os.getpid(), "w", encoding="utf-8") as fh:
+                fh.write(txt if txt is not None else "\0FAILED")
+            os.replace(cp + ".tmp%d" % os.getpid(), cp)
+        return f, txt
+    with ThreadPoolExecutor(max_workers=8) as ex:
+        return dict(ex.map(one, files))
+
+
+CB_SANDBOXED = re.compile(r"^\w+(->|\.)Sandboxed$")
+CB_NOT_SAFE = re.compile(r"^!\w+->IsSideEffectFree\(\)$")
+
+
+def callback_checked(body, src, depth=0):
+    """In a native that invokes a script-supplied function: is there, before the first Invoke, an
+    `if (<frame>->Sandboxed && !<fn>->IsSideEffectFree()) throw` (any order, nested ifs, or behind a helper of the file)?"""
+    def chk(n, need):
+        if n is None or n[0] != "if":
+            return False
+        cj = conjuncts(n[1])
+        if not cj:
+            return False
+        found = set()
+        for a in cj:
+            if CB_SANDBOXED.match(a):
+                found.add("sb")
+            elif CB_NOT_SAFE.match(a):
+                found.add("ns")
+            else:
+                return False
+        if not found <= set(need):
+            return False
+        rest = [x for x in need if x not in found]
+        if not rest:
+            return throws_unconditionally(n[2])
+        flat = _flat_text(n[2])
+        return bool(flat) and chk(flat[0], rest)
+    def helper_checks(n):
+        if n[0] != "simple" or depth >= 2 or "Invoke" in n[1]:
+            return False
+        m = re.match(r"(?:[\w:]+::)?([A-Za-z_]\w*)\s*\((.*)\)\s*;$", n[1], re.S)
+        if not m:
+            return False
+        f = _find_function(src, m.group(1))
+        return bool(f) and "IsSideEffectFree" in f[1] and "Invoke" not in f[1] and callback_checked(f[1] + "\nx->Invoke();", src, depth + 1)
+
+    def safe_seq(stmts):
+        """No Invoke is reachable in `stmts` without the check having run first."""
+        stmts = list(stmts)
+        while stmts:
+            n = stmts.pop(0)
+            flat = _flat_text(n)
+            if flat != [n]:
+                stmts = flat + stmts
+                continue
+            if chk(n, ["sb", "ns"]) or helper_checks(n):
+                return True
+            if n[0] == "if":
+                if "Invoke" in n[1]:
+                    return False
+                if not safe_seq(_flat_text(n[2])) or not safe_seq(_flat_text(n[3])):
+                    return False
+                continue
+            if _contains(n, "Invoke"):
+                return False
+        return True
+    return safe_seq(parse_stmts(body))
+
+
 def _setfield_only_under_init_dict(node, under=False):
     if node is None:
         return True
@@ -602,9 +1168,16 @@ def _setfield_only_under_init_dict(node, under=False):
 def extract(repo, build=None, cache=None, use_ast=True):
     t = {}
     expr = read(repo, "lib/config/expression.cpp")
+    if build and os.path.isdir(build):
+        # token-level analysis on the PREPROCESSED main file when possible: guard macros read like their expansion
+        ef = os.path.join(repo, "lib/config/expression.cpp")
+        pp = preprocess_many(repo, build, cache, [ef]).get(ef)
+        if pp and len(DO_EVALUATE_SIG.findall(pp)) >= 40:
+            expr = pp
 
     # --- node guards
-    ev = bodies(expr, re.compile(r"^ExpressionResult\s+(\w+)::DoEvaluate\s*\(\s*ScriptFrame\s*&\s*frame\s*,\s*DebugHint\s*\*\s*dhint\s*\)\s*const\s*\{", re.M))
+    ev3 = do_evaluate_defs(expr)
+    ev = [(k, b) for k, _, b in ev3]
     if len(ev) < 40:
         raise Lost("expression.cpp: only %d DoEvaluate definitions found (anchor `ExpressionResult X::DoEvaluate(ScriptFrame& frame, DebugHint *dhint) const`)" % len(ev))
     names = [k for k, _ in ev]
@@ -613,7 +1186,7 @@ def extract(repo, build=None, cache=None, use_ast=True):
     for must in ("SetExpression", "SetConstExpression", "FunctionCallExpression", "IndexerExpression", "LiteralExpression"):
         if must not in names:
             raise Lost("expression.cpp: %s::DoEvaluate not found" % must)
-    text_guards = [(k, text_node_guard(b)) for k, b in ev]
+    text_guards = [(k, text_node_guard(b, v, expr)) for k, v, b in ev3]
     ast = ast_expression_tables(repo, build, cache) if use_ast else None
     t["method"] = "text"
     t["ast_text_disagree"] = []
@@ -627,7 +1200,7 @@ def extract(repo, build=None, cache=None, use_ast=True):
         t["nodeGuards"] = text_guards
 
     # --- reference guards
-    rf = bodies(expr, re.compile(r"^bool\s+(\w+)::GetReference\s*\(\s*ScriptFrame\s*&\s*frame\s*,[^)]*\)\s*const\s*\{", re.M))
+    rf = get_reference_defs(expr)
     if not any(k == "IndexerExpression" for k, _ in rf):
         raise Lost("expression.cpp: IndexerExpression::GetReference not found")
     refs = []
@@ -657,14 +1230,14 @@ def extract(repo, build=None, cache=None, use_ast=True):
     a = split_args(gb[0][1][p0 + 1:match_close(gb[0][1], p0, "(", ")")])
     if len(a) < 2:
         raise Lost("reference.cpp: cannot read the sandboxed argument of GetFieldByName in Reference::Get")
-    t["refGetSandboxed"] = norm_atom(a[1]) == "true"
+    t["refGetSandboxed"] = resolve_bool(a[1], gb[0][1] + "\n" + rsrc) is True
 
     # --- call check
     fc = dict(ev)["FunctionCallExpression"]
     call = fc.find("VMOps::FunctionCall")
     if call < 0:
         raise Lost("expression.cpp: VMOps::FunctionCall not found in FunctionCallExpression::DoEvaluate")
-    tc = text_call_check(fc)
+    tc = text_call_check(fc, [v for k, v, _ in ev3 if k == "FunctionCallExpression"][0])
     if t["method"] == "clang-ast":
         t["callCheck"] = bool(ast["callCheck"])
         if bool(ast["callCheck"]) != tc:
@@ -680,14 +1253,14 @@ def extract(repo, build=None, cache=None, use_ast=True):
     b = gb[0][1]
     if "GetField(fid)" not in b:
         raise Lost("object.cpp: `GetField(fid)` not found in GetFieldByName")
-    t["fieldCheck"] = text_field_check(b)
+    t["fieldCheck"] = text_field_check(b, obj)
 
     # --- frame inheritance
     sf = read(repo, "lib/base/scriptframe.cpp")
     ib = bodies(sf, re.compile(r"^void\s+(ScriptFrame)::InitializeFrame\s*\(\s*\)\s*\{", re.M))
     if len(ib) != 1:
         raise Lost("scriptframe.cpp: ScriptFrame::InitializeFrame not found")
-    t["frameInherits"] = bool(re.search(r"Sandboxed\s*=\s*frame->Sandboxed\s*;", ib[0][1]))
+    t["frameInherits"] = bool(re.search(r"\bSandboxed\s*=\s*\w+->Sandboxed\s*;", ib[0][1]))
 
     # --- script functions are not side-effect free
     vm = read(repo, "lib/config/vmops.hpp")
@@ -701,52 +1274,56 @@ def extract(repo, build=None, cache=None, use_ast=True):
         raise Lost("vmops.hpp: `return new Function(` not found in NewFunction")
     p0 = nb.index("(", m.end() - 1)
     args = split_args(nb[p0 + 1:match_close(nb, p0, "(", ")")])
-    t["scriptFunctionsUnsafe"] = len(args) <= 3 or args[3] == "false"
+    t["scriptFunctionsUnsafe"] = len(args) <= 3 or resolve_bool(args[3], nb + "\n" + vm) is False
 
-    # --- natives
-    natives = {}
-    invokers = []
+    # --- natives: every `new [icinga::]Function("Ns#name", callback, args, flag…)` AFTER PREPROCESSING (so any
+    # registration macro, wrapper macro or named constant for the flag reads the same); a file that cannot be
+    # preprocessed (library not configured in this build) is read with the registration macros of function.hpp
+    natives, invokers, unknown = {}, [], []
     files = sorted(glob.glob(os.path.join(repo, "lib", "**", "*.cpp"), recursive=True))
-    reg_re = re.compile(r"^\s*REGISTER_(SAFE_)?FUNCTION(_NONCONST)?\s*\(\s*(\w+)\s*,\s*(\w+)\s*,", re.M)
-    stats_re = re.compile(r"^\s*REGISTER_STATSFUNCTION\s*\(\s*(\w+)\s*,", re.M)
-    newf_re = re.compile(r"new\s+Function\s*\(")
-    n_macro = n_new = 0
+    cand = []
     for f in files:
         raw = open(f, encoding="utf-8", errors="replace").read()
-        if "Function" not in raw and "FUNCTION" not in raw:
-            continue
-        src = strip_comments(raw)
-        for m in reg_re.finditer(src):
-            natives[m.group(3) + "#" + m.group(4)] = bool(m.group(1))
-            n_macro += 1
-        for m in stats_re.finditer(src):
-            natives["StatsFunctions#" + m.group(1)] = False
-            n_macro += 1
-        for m in newf_re.finditer(src):
-            p0 = src.index("(", m.end() - 1)
-            args = split_args(src[p0 + 1:match_close(src, p0, "(", ")")])
-            if not args or not re.fullmatch(r'"[^"]*"', args[0]):
-                continue        # not a literal-named native (e.g. the script function wrapper)
-            name = args[0][1:-1]
+        if "Function" in raw or "FUNCTION" in raw or "function.hpp" in raw:
+            cand.append((f, raw))
+    pre = preprocess_many(repo, build, cache, [f for f, _ in cand]) if build and os.path.isdir(build) else {}
+    n_reg = 0
+    t["natives_preprocessed_files"] = sum(1 for f, _ in cand if pre.get(f) is not None)
+    for f, raw in cand:
+        text = pre.get(f)
+        if text is None:
+            text = expand_known_macros(strip_comments(raw))
+        for m in re.finditer(r"new\s+(?:icinga::)?Function\s*\(", text):
+            p0 = text.index("(", m.end() - 1)
+            try:
+                args = split_args(text[p0 + 1:match_close(text, p0, "(", ")")])
+            except Lost:
+                continue
+            if not args:
+                continue
+            lits = re.findall(r'"((?:[^"\\\\]|\\\\.)*)"', args[0])
+            if not lits or re.sub(r'"(?:[^"\\\\]|\\\\.)*"|\s+', "", args[0]) != "":
+                continue        # name is not a (concatenation of) string literal(s): e.g. the script function wrapper
+            name = "".join(lits)
             if "#" not in name:
                 continue        # temporaries that never enter a namespace or prototype
-            safe = len(args) >= 4 and args[3] == "true"
-            if len(args) >= 4 and args[3] not in ("true", "false"):
-                raise Lost("%s: cannot read the side_effect_free argument of new Function(%s, ...): %r" % (os.path.relpath(f, repo), args[0], args[3]))
-            natives[name] = safe
-            n_new += 1
-            # does the callback invoke a script-supplied function?
-            cb = args[1].lstrip("&") if len(args) > 1 else ""
-            cm = re.search(r"^static\s+[\w:<>\s&\*]+?\b" + re.escape(cb) + r"\s*\([^)]*\)\s*\{", src, re.M) if re.fullmatch(r"\w+", cb) else None
-            if cm:
-                b0 = src.index("{", cm.end() - 1)
-                body = src[b0:match_close(src, b0)]
-                iv = re.search(r"->\s*Invoke(This)?\s*\(", body)
-                if iv:
-                    ck = re.search(r"Sandboxed\s*&&\s*!\s*\w+->IsSideEffectFree\s*\(\s*\)|!\s*\w+->IsSideEffectFree\s*\(\s*\)\s*&&\s*\w+(->|\.)Sandboxed", body)
-                    invokers.append((name, safe, bool(ck) and ck.start() < iv.start()))
-    if n_macro < 20 or n_new < 40:
-        raise Lost("native registrations: only %d macro and %d `new Function` registrations found" % (n_macro, n_new))
+            n_reg += 1
+            flag = False if len(args) < 4 else resolve_bool(args[3], text)
+            if flag is None:
+                unknown.append(name)
+                continue
+            natives[name] = flag
+            # does the callback invoke a script-supplied function, and does it test that function's flag first?
+            cb = args[1].strip().lstrip("&").strip() if len(args) > 1 else ""
+            if re.fullmatch(r"\w+", cb):
+                fb = _find_function(text, cb)
+                if fb:
+                    iv = re.search(r"->\s*Invoke(This)?\s*\(", fb[1])
+                    if iv:
+                        invokers.append((name, flag, callback_checked(fb[1], text)))
+    t["natives_unknown_flag"] = sorted(set(unknown))
+    if n_reg < 60:
+        raise Lost("native registrations: only %d `new Function(\"Ns#name\", …)` registrations found" % n_reg)
     if "Array#map" not in natives or "System#regex" not in natives:
         raise Lost("native registrations: Array#map / System#regex not found")
     t["natives"] = sorted(natives.items())
@@ -757,12 +1334,12 @@ def extract(repo, build=None, cache=None, use_ast=True):
 # ------------------------------------------------------------------------------------------------
 # Self-test: fragments with equivalent spellings (must be recognised) and removed/weakened guards (must not)
 
-def selftest(use_ast=True):
+def selftest(use_ast=True, d=None):
     """Runs both extractors over gen/c19_selftest/*.cpp; returns a list of failure descriptions."""
     import glob as _glob
     import shutil
     import subprocess
-    d = os.path.join(os.path.dirname(os.path.abspath(__file__)), "c19_selftest")
+    d = d or os.path.join(os.path.dirname(os.path.abspath(__file__)), "c19_selftest")
     files = sorted(_glob.glob(os.path.join(d, "*.cpp")))
     fails, checked = [], 0
     if len(files) < 20:
@@ -774,37 +1351,77 @@ def selftest(use_ast=True):
         exp = {}
         for m in re.finditer(r"//\s*EXPECT\s+(.*)", raw):
             for kv in m.group(1).split():
-                k, v = kv.split("=")
+                k, v = kv.rsplit("=", 1)
                 exp[k] = v == "1"
         src = strip_comments(raw)
+        if not f.endswith(".txt.cpp") and shutil.which("g++"):
+            # as on the real tree: the token-level extractor reads the preprocessed main file (macros expanded)
+            pp = subprocess.run(["g++", "-E", "-std=c++17", "-w", "-I" + d, f], stdout=subprocess.PIPE, stderr=subprocess.DEVNULL)
+            if pp.returncode == 0:
+                out, keep, real = [], False, os.path.realpath(f)
+                for line in pp.stdout.decode("utf-8", "replace").split("\n"):
+                    if line.startswith("# "):
+                        m = re.match(r'# \d+ "([^"]*)"', line)
+                        if m:
+                            keep = os.path.realpath(m.group(1)) == real
+                        continue
+                    if keep:
+                        out.append(line)
+                if len(do_evaluate_defs("\n".join(out))) == len(do_evaluate_defs(src)):
+                    src = "\n".join(out)
         got = {}
-        for k, b in bodies(src, sig):
-            got[k] = text_node_guard(b)
+        for k, v, b in do_evaluate_defs(src):
+            got[k] = text_node_guard(b, v, src)
             if k == "FunctionCallExpression":
-                got = {"callCheck": text_call_check(b)}
+                got = {"callCheck": text_call_check(b, v)}
         for _, b in bodies(src, re.compile(r"^Value\s+(Object)::GetFieldByName\s*\([^)]*bool\s+sandboxed[^)]*\)\s*const\s*\{", re.M)):
-            got["fieldCheck"] = text_field_check(b)
-        for _, b in bodies(src, re.compile(r"^bool\s+(IndexerExpression)::GetReference\s*\([^)]*\)\s*const\s*\{", re.M)):
-            got["initDictOff"] = text_init_dict_off(b)
+            got["fieldCheck"] = text_field_check(b, src)
+        for k, b in get_reference_defs(src):
+            if k == "IndexerExpression":
+                got["initDictOff"] = text_init_dict_off(b)
         for _, b in bodies(src, re.compile(r"^Value\s+(Reference)::Get\s*\(\s*\)\s*const\s*\{", re.M)):
             m = re.search(r"GetFieldByName\s*\(", b)
             p0 = b.index("(", m.end() - 1)
-            got["refGetSandboxed"] = norm_atom(split_args(b[p0 + 1:match_close(b, p0, "(", ")")])[1]) == "true"
+            got["refGetSandboxed"] = resolve_bool(split_args(b[p0 + 1:match_close(b, p0, "(", ")")])[1], b + "\n" + src) is True
+        if any(k.startswith(("native:", "invoker:")) for k in exp):
+            text = expand_known_macros(src)
+            for m in re.finditer(r"new\s+(?:icinga::)?Function\s*\(", text):
+                p0 = text.index("(", m.end() - 1)
+                args = split_args(text[p0 + 1:match_close(text, p0, "(", ")")])
+                lits = re.findall(r'"((?:[^"\\\\]|\\\\.)*)"', args[0])
+                name = "".join(lits)
+                if "#" not in name:
+                    continue
+                flag = False if len(args) < 4 else resolve_bool(args[3], text)
+                got["native:" + name] = flag
+                cb = args[1].strip().lstrip("&").strip() if len(args) > 1 else ""
+                fb = _find_function(text, cb) if re.fullmatch(r"\w+", cb) else None
+                if fb and re.search(r"->\s*Invoke(This)?\s*\(", fb[1]):
+                    got["invoker:" + name] = callback_checked(fb[1], text)
         for k, v in exp.items():
             checked += 1
             if got.get(k) is not v:
                 fails.append("%s: token-level extractor says %s=%s, expected %s" % (os.path.basename(f), k, got.get(k), v))
         if clang and not f.endswith(".txt.cpp"):
-            p = subprocess.run([clang, "-std=gnu++17", "-fsyntax-only", "-w", "-I" + d, "-Xclang", "-ast-dump=json",
-                                "-Xclang", "-ast-dump-filter=DoEvaluate", f], stdout=subprocess.PIPE, stderr=subprocess.PIPE)
-            if p.returncode != 0:
-                fails.append("%s: fragment does not compile: %s" % (os.path.basename(f), p.stderr.decode()[-300:]))
+            errs = []
+
+            def dump(filt, f=f, errs=errs):
+                p = subprocess.run([clang, "-std=gnu++17", "-fsyntax-only", "-w", "-I" + d, "-Xclang", "-ast-dump=json",
+                                    "-Xclang", "-ast-dump-filter=" + filt, f], stdout=subprocess.PIPE, stderr=subprocess.PIPE)
+                if p.returncode != 0:
+                    errs.append(p.stderr.decode()[-300:])
+                    return None
+                return p.stdout.decode("utf-8", "replace")
+            a = ast_analyse(dump)
+            if errs:
+                fails.append("%s: fragment does not compile: %s" % (os.path.basename(f), errs[0]))
                 continue
-            a = ast_tables_from_dump(p.stdout.decode("utf-8", "replace"))
             if a is None:
                 fails.append("%s: no AST result" % os.path.basename(f))
                 continue
             for k, v in exp.items():
+                if ":" in k:
+                    continue
                 checked += 1
                 g = a["callCheck"] if k == "callCheck" else a["guards"].get(k)
                 if g is not v:
@@ -889,7 +1506,7 @@ def generate(repo, out_path, build=None, cache=None, use_ast=True):
 
 if __name__ == "__main__":
     if len(sys.argv) > 1 and sys.argv[1] == "--selftest":
-        fails, n = selftest()
+        fails, n = selftest(True, sys.argv[2] if len(sys.argv) > 2 else None)
         print("self-test: %d expectations checked, %d failures" % (n, len(fails)))
         for x in fails:
             print("  " + x)
